@@ -6,11 +6,15 @@ import (
 	"fmt"
 	"os"
 
+	"verifharness/gl/c14"
+	"verifharness/gl/c20"
 	"verifharness/lib/c12"
 )
 
 var cmds = map[string]func([]string) int{
 	"C12": c12.Main,
+	"C14": c14.Main,
+	"C20": c20.Main,
 }
 
 func main() {
